@@ -4,3 +4,7 @@ from checks import c04
 
 def run(chk, replay):
     c04.run_prop(chk, replay, "C03")
+    if not replay:
+        # the command line layer (spec/Cli.tla): every subset of taste's options typed to the real main(), API intercepted
+        from harness import cli
+        cli.phase(chk, "taste")
